@@ -447,6 +447,15 @@ def acyclicBy (rank : Nat → Nat) (h : Heap) : Bool :=
     | none => true
     | some ob => ob.fields.all fun f => match f.val.target with | some p => decide (rank p < rank o) | none => true
 
+/-- longest path below `o` (with fuel): the driver's candidate rank function; `acyclicBy (height h n) h`
+then *checks* that it is one -/
+def height (h : Heap) : Nat → Nat → Nat
+  | 0, _ => 0
+  | f + 1, o =>
+    match h[o]? with
+    | none => 0
+    | some ob => (ob.fields.map fun fl => match fl.val.target with | some p => height h f p + 1 | none => 0).foldl max 0
+
 /-- decidable acyclicity used by the driver: all paths from `o` are shorter than the fuel -/
 def depthOk (h : Heap) : Nat → Nat → Bool
   | 0, _ => false
